@@ -63,4 +63,21 @@ theorem lemma_sq_expand (y : ℤ) :
     (y + 1) * (y + 1) = y * y + 2 * y + 1 ∧ (y - 1) * (y - 1) = y * y - 2 * y + 1 := by
   constructor <;> ring
 
+theorem lemma_sq_mono (a b : ℤ) (h : 0 ≤ a ∧ a ≤ b) : a * a ≤ b * b := by
+  obtain ⟨h1, h2⟩ := h
+  exact mul_le_mul h2 h2 h1 (le_trans h1 h2)
+
+theorem lemma_sq_mono_lt (a b : ℤ) (h : 0 ≤ a ∧ a < b) : a * a < b * b := by
+  obtain ⟨h1, h2⟩ := h
+  nlinarith
+
+theorem lemma_sq_cancel (a b : ℤ) (h : 0 ≤ a ∧ 0 ≤ b ∧ a * a = b * b) : a = b := by
+  obtain ⟨ha, hb, h⟩ := h
+  nlinarith [sq_nonneg (a - b), sq_nonneg (a + b)]
+
+/-- uniqueness of the floor square root (lemma_isqrt_unique), over the naturals -/
+theorem lemma_isqrt_unique (x y : ℕ) (h : y * y ≤ x ∧ x < (y + 1) * (y + 1)) : y = Nat.sqrt x := by
+  obtain ⟨h1, h2⟩ := h
+  exact (Nat.eq_sqrt.mpr ⟨h1, h2⟩)
+
 end Pyvc
